@@ -416,7 +416,7 @@ def health_problem(out):
     return None
 
 # ---------------------------------------------------------------- generator
-KEYS = [b'a', b'A', b'b', b'B', b'key', b'Key', b'KEY', b'', b'ab', b'aB', b'k2']
+KEYS = [b'a', b'A', b'b', b'B', b'key', b'Key', b'KEY', b'', b'ab', b'aB', b'k2', b'[]', b'{}', b'a\\b', b'a|b', b'^', b'~', b'_', b'\x7f', b'@', b'`']
 VALS = [b'', b'x', b'hello', b'a longer string value', b'\xc3\xa9', b'q"\\', b'zz']
 NUMS = [0.0, 1.0, -1.0, 2.5, -0.0, 42.0, 1e15, -1e15, 2147483647.0, 2147483648.0, -2147483648.0, -2147483649.0, 0.1, 1e-7, 1.7976931348623157e308, float('inf'), 3.999, -3.999, 123456789.0]
 INTS = [0, 1, -1, 7, 2147483647, -2147483648, 100000]
@@ -744,6 +744,19 @@ def directed_key_cases():
                 else: ops += ['%s:0:x%s' % (what, q.hex())]
                 ops += ['size:0', 'each:0', 'geto:0:x%s' % q.hex(), 'getocs:0:x%s' % q.hex()]
                 cases.append(Case('hist DX 0 ' + ';'.join(ops), {'tags': ['directed', 'directed-keys:' + what]}))
+    # the boundaries of the ASCII fold: bytes that differ from a letter's neighbours only in bit 0x20 must NOT be identified
+    pairs = [(b'[]', b'{}'), (b'a\\b', b'a|b'), (b'^', b'~'), (b'_', b'\x7f'), (b'@', b'`'), (b'Z[', b'z{'), (b'a', b'A')]
+    for k1, k2 in pairs:
+        for first, second in ((k1, k2), (k2, k1)):
+            for q in (k1, k2):
+                for what in ('geto', 'getocs', 'has', 'deto', 'delo', 'repo', 'repocs', 'detocs'):
+                    ops = ['obj', 'num:' + dt(1.0), 'addo:0:x%s:1' % first.hex(), 'anull:0:x6f74686572']        # only `first` is present; handle 2 = other
+                    if what.startswith('rep'): ops += ['str:x6e6577', '%s:0:x%s:3' % (what, q.hex())]
+                    else: ops += ['%s:0:x%s' % (what, q.hex())]
+                    ops += ['size:0', 'each:0', 'num:' + dt(2.0)]
+                    nh = 4 if what.startswith('rep') else 3
+                    if what in ('deto', 'detocs') : nh += 1     # a detached item (or NULL) was pushed
+                    cases.append(Case('hist DX 0 ' + ';'.join(ops), {'tags': ['directed', 'directed-fold:' + what]}))
     return cases
 
 def print_failure_cases():
@@ -802,6 +815,12 @@ def deep_cases(limit, model_too=()):
             e += [('dup:0:1', '- L%d' % n), ('depth:0', '%d L%d' % (n, n))]
         e += [('dup:0:0', 'h2 L%d' % (n + 1)), ('depth:2', '1 L%d' % (n + 1)), ('del:2', '. L%d' % n), ('del:0', '. L0')]
         mk(e, ['chain', 'chain:limit%+d' % (n - limit), 'dup-ok' if ok else 'dup-refused'])
+    # an over-deep chain as the LAST of several children: the refused duplicate must release the copies of the earlier siblings too
+    for n in (limit + 2, limit + 3):
+        L = n + 4
+        e = [('arr', 'h0 L1'), ('str:x61', 'h1 L3'), ('add:0:1', '1 L3'), ('num:3ff0000000000000', 'h2 L4'), ('add:0:2', '1 L4'), ('chain:%d' % n, 'h3 L%d' % L),
+             ('add:0:3', '1 L%d' % L), ('dup:0:1', '- L%d' % L), ('dup:0:0', 'h5 L%d' % (L + 1)), ('del:5', '. L%d' % L), ('del:0', '. L0')]
+        mk(e, ['chain', 'deep-last-sibling', 'dup-refused'])
     for k in (1, 2, 3):
         e = [('arr', 'h%d L%d' % (i, i + 1)) for i in range(k)]
         for i in range(k):
